@@ -4,7 +4,7 @@ import json
 import lib
 from checks import naming_common as nc
 
-TARGETS = ["Props/C13.v", "Naming/Script.v"]
+TARGETS = ["Props/C13.v", "Naming/Script.v", "Naming/Examples.v"]
 
 MANIFEST = dict(
     text="Logical-clock theorems about the NamingActor model (time-out sets keyed by last_modified, re-validation on firing, "
@@ -251,11 +251,14 @@ def run(chk, replay=None):
         chk.violation("harness does not build against /repo", {"broken": "harness build", "log": out[-3000:]}, False)
         return
     hashes = nc.get_hashes()
-    if replay:
-        cases = [json.load(open(replay))["replay"]["case"]]
+    rp = json.load(open(replay))["replay"] if replay else None
+    if rp and isinstance(rp, dict) and rp.get("case"):
+        cases = [rp["case"]]
         kf = []
+        replay = True
     else:
-        n = 200 if tier == "quick" else 2500
+        replay = None
+        n = 800 if tier == "quick" else 6000
         kf = known_finding_cases()
         cases = nasty_cases() + [timing_case(rng) for _ in range(n)]
     impl = lib.harness_run_parallel("naming", cases + kf)
